@@ -14,7 +14,7 @@
    theorems [add_mapped_trait_installs_shadow], [remove_mapped_trait_clears_derived_name],
    [remove_trait_restores_class_rule_for_derived_names] at the end. *)
 From Coq Require Import ZArith List Bool.
-From TV Require Import Common.Harness C13.Model C13.Law C13.Corr C13.Proofs C13.MapProofs C13.ListenerProofs.
+From TV Require Import Common.Harness C13.Model C13.Law C13.Corr C13.Proofs C13.MapProofs C13.ListenerProofs C13.ClassOpProofs.
 Import ListNotations.
 Open Scope Z_scope.
 
@@ -571,4 +571,47 @@ Example lazy_schema_demo :
              [OSet [110; 95; 98] 101; OGet [110; 95; 98]; OSet [107; 95; 99] 1; OGet [107; 95; 99];
               OGet [110; 95; 100]; OSet [119] 101; OGet [119]]) =
   [Raise TraitError; Val 7; Raise TraitError; Val 42; Val 7; Done; Val 101].
+Proof. vm_compute. reflexivity. Qed.
+
+
+(* ---- add_class_trait: declarations added at run time (Model.add_class; seeded change C13-t2) ---- *)
+
+(* After ANY sequence of wildcards added at run time (each one appended and the list re-sorted,
+   has_traits.py l.1163-1170), in any order — specific then general or general then specific —
+   the prefix list is sorted longest first and the first match is the longest matching wildcard
+   of ALL declarations, those of the class body and those added later. *)
+Theorem runtime_wildcards_keep_longest_first :
+  forall (adds : list (name * policy)) (pt : ptab),
+    Sorted.StronglySorted len_ge pt ->
+    let pt' := fold_left add_wild adds pt in
+    Sorted.StronglySorted len_ge pt' /\ tab_eq pt' (pt ++ adds) /\
+    forall n, wild (first_match n pt') = wild (best n (pt ++ adds)).
+Proof. exact runtime_wildcards_sorted. Qed.
+Print Assumptions runtime_wildcards_keep_longest_first.
+
+Theorem add_class_trait_wildcard_is_append_and_sort :
+  forall ct pt n p, ends_us n = true -> amem (removelast n) pt = false ->
+    add_class1 false (ct, pt) n p = Some (ct, add_wild pt (removelast n, p)) /\
+    add_class1 true (ct, pt) n p = Some (ct, add_wild pt (removelast n, p)).
+Proof. exact add_class1_wildcard. Qed.
+Print Assumptions add_class_trait_wildcard_is_append_and_sort.
+
+Theorem add_class_trait_keeps_existing_definitions :
+  forall ct pt n p,
+    (if ends_us n then amem (removelast n) pt else amem n ct) = true ->
+    add_class1 false (ct, pt) n p = None /\ add_class1 true (ct, pt) n p = Some (ct, pt).
+Proof. exact add_class1_existing. Qed.
+Print Assumptions add_class_trait_keeps_existing_definitions.
+
+(* the demo of C13-t2 on the model: class A(HasTraits); class B(A); instances of both;
+   A.add_class_trait("cab_", Int(7)) then A.add_class_trait("c_", Str("2")): cabx is an Int on both *)
+Example runtime_wildcards_demo :
+  let h := roots ++ [mkClass [] [0%nat]; mkClass [] [3%nat]] in
+  map (fun p => o_out (snd p))
+      (run_t h [3%nat; 4%nat] (tables h, [([], []); ([], [])])
+         [CorrT.TClass 3 [99; 97; 98; 95] (PTyped VInt 7); CorrT.TClass 3 [99; 95] (PTyped VStr 102);
+          CorrT.TObj 0 (OGet [99; 97; 98; 120]); CorrT.TObj 0 (OSet [99; 97; 98; 120] 101);
+          CorrT.TObj 0 (OGet [99; 120]); CorrT.TObj 1 (OSet [99; 97; 98; 121] 101);
+          CorrT.TObj 1 (OGet [99; 97; 98; 121]); CorrT.TClass 3 [99; 95] PDisallow]) =
+  [Done; Done; Val 7; Raise TraitError; Val 102; Raise TraitError; Val 7; Raise TraitError].
 Proof. vm_compute. reflexivity. Qed.
